@@ -8,7 +8,7 @@ Obligation (d): the overflow check of `parse_u64_digits` never fires: invariant 
 namespace LexVerif.Proof.PNDebug
 open LexVerif LexVerif.Model
 open LexVerif.Props.C12 (Bytes.Valid incCount_spec)
-open LexVerif.Proof.PNTotal (Adv csum step_adv)
+open LexVerif.Proof.PNTotal (Adv csum step_adv incCountFold_adv)
 
 variable {c : Cfg}
 
@@ -51,7 +51,7 @@ theorem canMultidigit_contig {k : Comp} (h : canMultidigit c k = true) : c.iterC
 
 theorem tryParse8_spec (cx : Ctx c) (k : Comp) (hcm : canMultidigit c k = true) (b : Bytes) (_hb : Bytes.Valid b) :
     tryParse8 c k b = .ok (none, b) ∨
-    ∃ x, tryParse8 c k b = .ok (some x, { b with index := b.index + 8 }) ∧ b.index + 8 ≤ b.slc.length ∧
+    ∃ x b', tryParse8 c k b = .ok (some x, b') ∧ Adv b b' ∧ b'.index = b.index + 8 ∧ b.index + 8 ≤ b.slc.length ∧
       x < c.mantissaRadix ^ 8 ∧ DigRange c.mantissaRadix b.slc b.index (b.index + 8) := by
   have hr10 := cx.multi k hcm
   have hic := canMultidigit_contig hcm
@@ -68,7 +68,9 @@ theorem tryParse8_spec (cx : Ctx c) (k : Comp) (hcm : canMultidigit c k = true) 
       right
       have hlen : ((List.drop b.index b.slc).take 8).length = 8 := by
         simp only [List.length_take, List.length_drop]; omega
-      refine ⟨val8Digits c.mantissaRadix ((b.slc.drop b.index).take 8), ?_, by omega, ?_, ?_⟩
+      obtain ⟨hfa, hfi⟩ := incCountFold_adv (c := c) k (List.range 8) (step_adv b 8 (by omega))
+        (by simp only [csum, List.length_range]; omega)
+      refine ⟨val8Digits c.mantissaRadix ((b.slc.drop b.index).take 8), _, ?_, hfa, hfi, by omega, ?_, ?_⟩
       · rw [stepBy8_ok b (by omega)]; rfl
       · have := val8Digits_lt h8
         rw [hlen] at this; exact this
@@ -110,13 +112,13 @@ theorem parse8Loop_safe (cx : Ctx c) (k : Comp) (hcm : canMultidigit c k = true)
   | succ n ih =>
     intro b m hb hf
     unfold parse8Loop
-    rcases tryParse8_spec cx k hcm b hb with h | ⟨x, h, h8, _, hdr⟩
+    rcases tryParse8_spec cx k hcm b hb with h | ⟨x, b8, h, hadv, hi8, h8, _, hdr⟩
     · simp only [h, bind, Except.bind]
       exact ⟨adv_refl hb, DigRange.refl _ _ _⟩
     · simp only [h, bind, Except.bind]
-      have hadv : Adv b { b with index := b.index + 8 } := step_adv b 8 h8
-      refine (ih { b with index := b.index + 8 } _ hadv.valid' (by simp only; omega)).mono ?_
+      refine (ih b8 _ hadv.valid' (by rw [hadv.len, hi8]; omega)).mono ?_
       intro r ⟨ha, hd⟩
+      rw [hadv.slc, hi8] at hd
       exact ⟨hadv.trans ha, hdr.trans hd⟩
 
 theorem parse8Digits_safe (cx : Ctx c) (k : Comp) (b : Bytes) (m : Nat) (hb : Bytes.Valid b) :
@@ -144,11 +146,10 @@ theorem u64Loop8_safe (cx : Ctx c) (k : Comp) (hcm : canMultidigit c k = true) :
     unfold u64Loop8
     split
     · next hs8 =>
-      rcases tryParse8_spec cx k hcm b hb with h | ⟨x, h, h8, hx, _⟩
+      rcases tryParse8_spec cx k hcm b hb with h | ⟨x, b8, h, hadv, hi8, h8, hx, _⟩
       · simp only [h, bind, Except.bind]
         exact ⟨adv_refl hb, hinv, by simp⟩
       · simp only [h, bind, Except.bind]
-        have hadv : Adv b { b with index := b.index + 8 } := step_adv b 8 h8
         have hr10 := cx.multi k hcm
         have hr8 : radix8 c.mantissaRadix = c.mantissaRadix ^ 8 := radix8_eq ⟨c.mantissaRadix, by omega⟩
         have hlt : m * c.mantissaRadix ^ 8 + x
@@ -165,11 +166,11 @@ theorem u64Loop8_safe (cx : Ctx c) (k : Comp) (hcm : canMultidigit c k = true) :
         have hmod : (m * radix8 c.mantissaRadix + x) % pow2_64 = m * c.mantissaRadix ^ 8 + x := by
           rw [hr8]; exact Nat.mod_eq_of_lt (hinv2.lt_pow2 cx)
         rw [hmod]
-        refine (ih { b with index := b.index + 8 } _ _ hadv.valid' (by simp only; omega) hinv2).mono ?_
+        refine (ih b8 _ _ hadv.valid' (by rw [hadv.len, hi8]; omega) hinv2).mono ?_
         intro r ⟨ha, hi, hcnt⟩
         refine ⟨hadv.trans ha, hi, ?_⟩
         have := ha.mono
-        simp only at this hcnt
+        rw [hi8] at this hcnt
         omega
     · exact ⟨adv_refl hb, hinv, by simp⟩
 
